@@ -173,7 +173,7 @@ fn c03_zipf_step_f64() {
 }
 
 /// Zeta (f64): one iteration, every s in E, every pair of words: the value is >= 1, never NaN (infinite only via the
-/// documented overflow return), and the internal debug_assert!(x >= 1) never fires.
+/// documented overflow return, and never for s >= 2), and the internal debug_assert!(x >= 1) never fires.
 #[kani::proof]
 #[kani::unwind(1)]
 #[kani::stub(libm::pow, lc::pow)]
@@ -186,6 +186,10 @@ fn c03_zeta_step_f64() {
     let x: f64 = d.sample(&mut rng);
     kani::cover!(rng.i >= 1, "an iteration returns");
     kani::assert(x >= 1.0, "Zeta value below 1 or NaN");
+    // s >= 2: the exponent -1/(s-1) lies in [-1, 0) and the OpenClosed01 base in [2^-53, 1], so the proposal cannot
+    // overflow - an infinite value here is the pole pow(0, negative), not the documented "s close to 1" overflow
+    kani::cover!(s >= 2.0 && rng.i >= 1, "s >= 2 returns");
+    if s >= 2.0 { kani::assert(x.is_finite(), "Zeta(s >= 2) value infinite"); }
 }
 
 // ---------------------------------------------------------------- samplers built on a ziggurat draw (one ziggurat iteration)
